@@ -46,7 +46,8 @@ def mg_merge(case, ctx):
             args = ["merge", out, *uris, "-c", str(case["buf"])]
             if cols != ["count"] or agg:
                 for c, f in zip(cols, case["aggs"]):
-                    args += ["--field", f"{c}:agg={f}"]
+                    # field specifiers: with the aggregate spelled out, or bare where the aggregate is the default (sum)
+                    args += ["--field", c if (f == "sum" and case.get("barefields")) else f"{c}:agg={f}"]
             res = CliRunner().invoke(cli, args)
             if res.exit_code != 0:
                 raise res.exception if isinstance(res.exception, Exception) else RuntimeError(res.output[-200:])
